@@ -319,7 +319,11 @@ class C10(Prop):
   driver = 'drv_c10'
   translators = []
   case_timeout_s = 20
-  rule = ('eight case kinds. rt: 0-6 keys drawn from identifiers, ints (incl. negative / 20-digit), '
+  rule = ('nine case kinds. routes: one key sequence (1-5 keys, same key vocabulary as rt) built through 20-24 '
+          'construction routes (one-shot list/tuple, KeyPath(key, parent) chains with and without str / hash / '
+          '== str / repr / .path / < of the parent in between, split lists on a formatted parent, + chains, '
+          'from_value, parent of a child, subtraction of a prefix, parse / parse with parent / + str) and observed '
+          'through str, path_str, repr, parse, hash, ==, <, is_relative_to, -, +, child, parent; rt: 0-6 keys drawn from identifiers, ints (incl. negative / 20-digit), '
           'digit-only and dash strings, keys with . [ ] (balanced), "$", unicode (é, Arabic-Indic 3, '
           'superscript 2), random strings over a 14-character alphabet, and (non-WF stream) unbalanced / '
           'empty strings; parse: printed paths with 0-2 character mutations, a curated malformed list, '
@@ -350,6 +354,11 @@ class C10(Prop):
         (60000, 40000, 30000, 15000, 20000, 10000, 10000, 10000))
     for _ in range(n_rt):
       yield {'op': 'rt', 'keys': wpath(gen_keys(rng, 0, 6, wf_bias=not rng.chance(0.12)))}
+    for _ in range(n_rt):
+      keys = gen_keys(rng, 1, 5, wf_bias=not rng.chance(0.1))
+      yield {'op': 'routes', 'keys': wpath(keys), 'split': rng.randint(0, len(keys)),
+             'extra': wkey(gen_key(rng)), 'prefix': wpath(gen_wf_keys(rng, 0, 2)),
+             'other': wpath(keys[:rng.randint(0, len(keys))] + gen_keys(rng, 0, 2))}
     for _ in range(n_parse):
       yield {'op': 'parse', 's': cps(gen_raw(rng))}
     for _ in range(n_arith):
@@ -457,9 +466,20 @@ class C10(Prop):
 
   # -- execution --------------------------------------------------------------------------
   def model_request(self, case):
+    if case['op'] == 'routes':
+      case = {'op': 'rt', 'keys': case['keys']}
     r = dict(case)
     r['dc'] = digit_classes(case)
     return r
+
+  def compare(self, case, impl_out, model_out):
+    if case['op'] != 'routes':
+      return super().compare(case, impl_out, model_out)
+    want = [model_out['str'], model_out['parsed'], model_out['str_plain']]
+    for name, st, parsed, plain in impl_out['model']['routes']:
+      if [st, parsed, plain] != want:
+        return 'route %s: impl=%s model=%s' % (name, json.dumps([st, parsed, plain])[:300], json.dumps(want)[:300])
+    return None
 
   def impl(self, case):
     from pyglove.core import utils
@@ -485,6 +505,8 @@ class C10(Prop):
       except Exception as e:     # pylint: disable=broad-except
         back = _exc(e)
       return {'model': wpath(p.keys), 'back': back}
+    if op == 'routes':
+      return self.impl_routes(case, KeyPath)
     if op == 'arith':
       return self.impl_arith(case, KeyPath)
     if op == 'order':
@@ -517,6 +539,145 @@ class C10(Prop):
       return out
     raise ValueError('unknown op %r' % op)
 
+  def impl_routes(self, case, KeyPath):
+    """Builds the same key sequence in every way the API offers and observes each result."""
+    keys = unwpath(case['keys'])
+    split, extra = case['split'], unwkey(case['extra'])
+    prefix, other_keys = unwpath(case['prefix']), unwpath(case['other'])
+    wf = all(wf_key(k) for k in keys)
+
+    def heat(p, how):
+      if how == 'str':
+        str(p)
+      elif how == 'hash':
+        hash(p)
+      elif how == 'eqstr':
+        _ = (p == 'zz')
+      elif how == 'repr':
+        repr(p)
+      elif how == 'path':
+        _ = p.path
+      elif how == 'lt':
+        _ = p < 'zz'
+      return p
+
+    def chain(how):
+      p = KeyPath()
+      for k in keys:
+        p = KeyPath(k, heat(p, how))
+      return p
+
+    def add_chain(how, as_key):
+      p = KeyPath()
+      for k in keys:
+        heat(p, how)
+        p = p + (k if (as_key and isinstance(k, int)) else KeyPath([k]))
+      return p
+
+    def add_hot_chain():
+      p = KeyPath()
+      for k in keys:
+        p = heat(p, 'str') + heat(KeyPath([k]), 'hash')
+      return p
+
+    def split_route(how):
+      return KeyPath(keys[split:], heat(KeyPath(keys[:split]), how))
+
+    routes = [
+        ('oneshot', lambda: KeyPath(list(keys))),
+        ('tuple', lambda: KeyPath(tuple(keys))),
+        ('chain', lambda: chain(None)),
+        ('chain+str', lambda: chain('str')),
+        ('chain+hash', lambda: chain('hash')),
+        ('chain+eqstr', lambda: chain('eqstr')),
+        ('chain+repr', lambda: chain('repr')),
+        ('chain+path', lambda: chain('path')),
+        ('chain+lt', lambda: chain('lt')),
+        ('split', lambda: split_route(None)),
+        ('split+str', lambda: split_route('str')),
+        ('add', lambda: add_chain(None, False)),
+        ('add+str', lambda: add_chain('str', False)),
+        ('add-int+hash', lambda: add_chain('hash', True)),
+        ('add-hot-operands', lambda: heat(KeyPath(keys[:split]), 'str') + heat(KeyPath(keys[split:]), 'str')),
+        ('add-hot-chain', lambda: add_hot_chain()),
+        ('from_value', lambda: KeyPath.from_value(heat(KeyPath(list(keys)), 'str'))),
+        ('parent-of-child', lambda: heat(KeyPath(extra, heat(chain('str'), 'str')), 'str').parent),
+        ('sub-prefix', lambda: heat(KeyPath(list(keys), heat(KeyPath(list(prefix)), 'str')), 'str') - heat(KeyPath(list(prefix)), 'hash')),
+        ('list-on-hot-parent', lambda: KeyPath(list(keys), heat(KeyPath(), 'str'))),
+    ]
+    if wf:
+      printed = str(KeyPath(list(keys)))
+      routes += [
+          ('parse', lambda: KeyPath.parse(printed)),
+          ('from_value-str', lambda: KeyPath.from_value(printed)),
+          ('parse-on-parent', lambda: KeyPath.parse(str(KeyPath(keys[split:])), heat(KeyPath(keys[:split]), 'str'))),
+          ('add-str', lambda: heat(KeyPath(keys[:split]), 'str') + str(KeyPath(keys[split:]))),
+      ]
+    base = KeyPath(list(keys))
+    base_str = str(KeyPath(list(keys)))
+    other = KeyPath(list(other_keys))
+
+    def t(f, conv=lambda x: x):
+      try:
+        return conv(f())
+      except Exception as e:     # pylint: disable=broad-except
+        return _exc(e)
+
+    out = []
+    for i, (name, build) in enumerate(routes):
+      p = build()
+      o = {'route': name, 'keys': wpath(p.keys)}
+      first = i % 3           # vary what is asked first of a fresh object
+      if first == 1:
+        o['hash_eq'] = hash(p) == hash(base)
+      if first == 2:
+        o['eq_str'] = bool(p == base_str)
+      o['str'] = cps(str(p))
+      o['plain'] = cps(p.path_str(False))
+      o['repr'] = cps(repr(p))
+      o['parsed'] = t(lambda: KeyPath.parse(str(p)), lambda r: wpath(r.keys))
+      o['hash_eq'] = hash(p) == hash(base)
+      o['eq'] = [bool(p == base), bool(base == p), not bool(p != base)]
+      o['eq_str'] = bool(p == base_str)
+      o['lt'] = [t(lambda: bool(p < other)), t(lambda: bool(p > other)), t(lambda: bool(p <= other))]
+      o['lt_str'] = t(lambda: bool(p < 'm'))
+      o['rel'] = t(lambda: bool(p.is_relative_to(other)))
+      o['rel_r'] = t(lambda: bool(other.is_relative_to(p)))
+      o['sub'] = t(lambda: p - KeyPath(keys[:split]), lambda r: [wpath(r.keys), cps(str(r))])
+      o['add'] = t(lambda: p + other, lambda r: [wpath(r.keys), cps(str(r))])
+      o['child'] = t(lambda: KeyPath(extra, p), lambda r: [wpath(r.keys), cps(str(r)), hash(r) == hash(KeyPath(keys + [extra]))])
+      o['parent'] = t(lambda: p.parent, lambda r: [wpath(r.keys), cps(str(r))])
+      o['depth'] = len(p)
+      out.append(o)
+    return {'model': {'routes': [[o['route'], o['str'], o['parsed'], o['plain']] for o in out]}, 'obs': out}
+
+  def oracle_routes(self, case, out):
+    obs = out['obs']
+    base = obs[0]
+    keys = unwpath(case['keys'])
+    if base['keys'] != case['keys']:
+      return {'signature': 'routes:keys', 'what': 'KeyPath(%r).keys = %r' % (keys, unwpath(base['keys']))}
+    for o in obs:
+      for f in base:
+        if f == 'route':
+          continue
+        if o[f] != base[f]:
+          return {'signature': 'path-depends-on-construction:' + f,
+                  'what': 'the key sequence %r built via %s has %s = %s, built in one shot %s' % (
+                      keys, o['route'], f, self._show_obs(f, o[f]), self._show_obs(f, base[f]))}
+      if not (o['hash_eq'] and all(o['eq']) and o['eq_str']):
+        return {'signature': 'path-depends-on-construction:eq-hash',
+                'what': 'the key sequence %r built via %s: hash equal %s, == %s, == printed %s' % (
+                    keys, o['route'], o['hash_eq'], o['eq'], o['eq_str'])}
+    if all(wf_key(k) for k in keys) and base['parsed'] != case['keys']:
+      return {'signature': 'roundtrip', 'what': 'parse(str(KeyPath(%r))) = %s' % (keys, self._show_parsed(base['parsed']))}
+    return None
+
+  def _show_obs(self, f, x):
+    if f in ('str', 'plain', 'repr') and isinstance(x, list):
+      return repr(uncps(x))
+    return json.dumps(x)[:160]
+
   def impl_arith(self, case, KeyPath):
     import operator
     p = KeyPath(unwpath(case['p']))
@@ -536,24 +697,39 @@ class C10(Prop):
       except Exception as e:     # pylint: disable=broad-except
         return _exc(e)
     kp = lambda r: wpath(r.keys)
-    out = {
-        'add': t(lambda: p + o, kp),
-        'sub': t(lambda: p - o, kp),
-        'rel': t(lambda: p.is_relative_to(o), bool),
-        'lt': t(lambda: operator.lt(p, o), bool),
-        'le': t(lambda: operator.le(p, o), bool),
-        'gt': t(lambda: operator.gt(p, o), bool),
-        'ge': t(lambda: operator.ge(p, o), bool),
-        'eq': bool(p == o),
-        'parent': t(lambda: p.parent, kp),
-        'key': t(lambda: p.key, wkey),
-        'depth': len(p),
-    }
+
+    def observe(p, o):
+      return {
+          'add': t(lambda: p + o, kp),
+          'sub': t(lambda: p - o, kp),
+          'rel': t(lambda: p.is_relative_to(o), bool),
+          'lt': t(lambda: operator.lt(p, o), bool),
+          'le': t(lambda: operator.le(p, o), bool),
+          'gt': t(lambda: operator.gt(p, o), bool),
+          'ge': t(lambda: operator.ge(p, o), bool),
+          'eq': bool(p == o),
+          'parent': t(lambda: p.parent, kp),
+          'key': t(lambda: p.key, wkey),
+          'depth': len(p),
+      }
+    out = observe(p, o)
+    # the same questions asked of operands whose path strings are already cached
+    hp = KeyPath(unwpath(case['p']))
+    ho = KeyPath(unwpath(q['path'])) if 'path' in q else o
+    str(hp), hash(hp)
+    if isinstance(ho, KeyPath):
+      str(ho)
+    hot = observe(hp, ho)
+    hot_strs = [t(lambda: str(hp + ho), cps), t(lambda: str(hp - ho), cps), t(lambda: str(hp.parent), cps)]
+    cold_strs = [t(lambda: str(KeyPath((p + o).keys)), cps), t(lambda: str(KeyPath((p - o).keys)), cps),
+                 t(lambda: str(KeyPath(p.parent.keys)), cps)]
     extra = {'addsub': t(lambda: (p + o) - p, kp), 'ne': bool(p != o),
              'hash_eq': (hash(p) == hash(o)) if isinstance(o, (str, KeyPath)) else None}
     if isinstance(o, str):
       extra['parsed'] = t(lambda: KeyPath.parse(o), kp)
       extra['pstr'] = str(p)
+    extra['hot'] = hot
+    extra['hot_strs'] = [hot_strs, cold_strs]
     return {'model': out, 'extra': extra}
 
   def impl_set(self, case, KeyPath, KeyPathSet):
@@ -617,6 +793,8 @@ class C10(Prop):
     v = unwval(case['v'])
     pre, post, lookup, pre_sym = [], [], [], []
 
+    lookup_str, strs, hist = [], [], []
+
     def pre_fn(path, x):
       pre.append(wpath(path.keys))
       try:
@@ -624,6 +802,17 @@ class C10(Prop):
         lookup.append('same' if r is x else 'diff')
       except Exception as e:     # pylint: disable=broad-except
         lookup.append(type(e).__name__)
+      # what every real visitor does: print the path (so children are built from a formatted parent)
+      s = str(path)
+      strs.append(cps(s))
+      try:
+        r = KeyPath.parse(s).query(v)
+        lookup_str.append('same' if r is x else 'diff')
+      except Exception as e:     # pylint: disable=broad-except
+        lookup_str.append(type(e).__name__)
+      fresh = KeyPath(list(path.keys))
+      hist.append([cps(str(fresh)), hash(path) == hash(fresh), bool(path == fresh), bool(fresh == path),
+                   bool(path == str(fresh))])
       return True
 
     def post_fn(path, x):
@@ -632,8 +821,11 @@ class C10(Prop):
     utils.traverse(v, pre_fn, post_fn)
     post_sym = []
 
+    sym_strs = []
+
     def pre3(path, x, parent):
       pre_sym.append(wpath(path.keys))
+      sym_strs.append(cps(str(path)))
       return pg.TraverseAction.ENTER
 
     def post3(path, x, parent):
@@ -641,7 +833,8 @@ class C10(Prop):
       return pg.TraverseAction.ENTER
     pg.traverse(v, pre3, post3)
     leaves = pg.query(v, where=lambda x: not isinstance(x, (dict, list)))
-    out = {'pre': pre, 'post': post, 'lookup': lookup,
+    leaves_rx = pg.query(v, r'(?s).*', where=lambda x: not isinstance(x, (dict, list)))
+    out = {'pre': pre, 'post': post, 'lookup': lookup, 'lookup_str': lookup_str, 'strs': strs,
            'leaves': wval(dict(leaves))}
     for name, fck in (('t', True), ('f', False)):
       f = utils.flatten(v, fck)
@@ -650,7 +843,8 @@ class C10(Prop):
         out['canon_flat_' + name] = wval(utils.canonicalize(f))
       except Exception as e:     # pylint: disable=broad-except
         out['canon_flat_' + name] = _exc(e)
-    return {'model': out, 'pre_sym': pre_sym, 'post_sym': post_sym}
+    return {'model': out, 'pre_sym': pre_sym, 'post_sym': post_sym, 'hist': hist, 'sym_strs': sym_strs,
+            'leaves_rx': wval(dict(leaves_rx))}
 
   # -- the property itself ----------------------------------------------------------------
   def oracle(self, case, out):
@@ -670,6 +864,8 @@ class C10(Prop):
           return {'signature': 'roundtrip-of-parsed', 'what': 'parse(%r) = %r prints and parses back to %s' % (
               uncps(case['s']), keys, self._show_parsed(out.get('back')))}
       return None
+    if op == 'routes':
+      return self.oracle_routes(case, out)
     if op == 'arith':
       return self.oracle_arith(case, out)
     if op == 'order':
@@ -691,6 +887,9 @@ class C10(Prop):
     m, x = out['model'], out['extra']
     p = unwpath(case['p'])
     q = case['q']
+    if x['hot'] != m or x['hot_strs'][0] != x['hot_strs'][1]:
+      return {'signature': 'path-depends-on-construction:arith', 'what': 'arithmetic on operands whose strings are cached '
+              'gives %s / prints %s; on fresh operands %s / %s' % (json.dumps(x['hot'])[:200], x['hot_strs'][0], json.dumps(m)[:200], x['hot_strs'][1])}
     if m['depth'] != len(p):
       return {'signature': 'arith:depth', 'what': 'len(KeyPath(%r)) = %s' % (p, m['depth'])}
     want_parent = wpath(p[:-1]) if p else {'err': 'KeyError'}
@@ -872,6 +1071,21 @@ class C10(Prop):
     for p, l in zip(m['pre'], m['lookup']):
       if l != 'same':
         return {'signature': 'lookup:' + l, 'what': 'the visited path %r, looked up from the root, gives %s' % (unwpath(p), l)}
+    for p, st, h in zip(m['pre'], m['strs'], out['hist']):
+      if st != h[0] or not (h[1] and h[2] and h[3] and h[4]):
+        return {'signature': 'path-depends-on-construction', 'what': 'the path %r built by traverse prints %r, '
+                'KeyPath(keys) prints %r; hash equal %s, == %s / %s, == str %s' % (
+                    unwpath(p), uncps(st), uncps(h[0]), h[1], h[2], h[3], h[4])}
+    if out['sym_strs'] != m['strs']:
+      return {'signature': 'path-depends-on-construction', 'what': 'pg.traverse prints %r, utils.traverse %r' % (
+          [uncps(x) for x in out['sym_strs']], [uncps(x) for x in m['strs']])}
+    for p, l in zip(m['pre'], m['lookup_str']):
+      if l != 'same' and all(wf_key(k) for k in unwpath(p)):
+        return {'signature': 'lookup-via-str:' + l, 'what': 'the visited path %r, printed (%r), parsed and looked up '
+                'from the root, gives %s' % (unwpath(p), uncps(m['strs'][m['pre'].index(p)]), l)}
+    if out['leaves_rx'] != m['leaves']:
+      return {'signature': 'query:regex-vs-plain', 'what': 'pg.query with a match-all path_regex selects %s, without %s' % (
+          json.dumps(out['leaves_rx'])[:200], json.dumps(m['leaves'])[:200])}
     # pg.query: one entry per leaf, keyed by the printed path (when keys are WF the printed paths are distinct)
     leaves = [p for p in all_nodes(v) if not isinstance(self._at(v, p), (dict, list))]
     if all(wf_key(k) for p in leaves for k in p):
@@ -911,6 +1125,9 @@ class C10(Prop):
     if op == 'rt':
       ks = unwpath(case['keys'])
       return len(ks) >= 2 and any(isinstance(k, int) or not k.isidentifier() for k in ks)
+    if op == 'routes':
+      ks = unwpath(case['keys'])
+      return len(ks) >= 2 and any(isinstance(k, int) or not k.isidentifier() for k in ks)
     if op == 'parse':
       return len(case['s']) >= 3
     if op == 'arith':
@@ -937,6 +1154,14 @@ class C10(Prop):
         h.append('key:' + ('int' if isinstance(k, int) else 'empty' if k == '' else
                            'unbalanced' if not balanced(k) else 'special' if special(k) else
                            'digits' if k.lstrip('-').isdigit() else 'non-ascii' if not k.isascii() else 'plain'))
+    elif op == 'routes':
+      ks = unwpath(case['keys'])
+      h.append('routes:len=%d' % len(ks))
+      h.append('routes:' + ('wf' if all(wf_key(k) for k in ks) else 'non-wf'))
+      h.append('routes:n=%d' % len(m['routes']))
+      for k in ks:
+        if isinstance(k, str) and ('[' in k or ']' in k) and '.' not in k:
+          h.append('routes:key-with-brackets-no-dot')
     elif op == 'parse':
       h.append('parse:' + (m['err'] if isinstance(m, dict) else 'ok/%d keys' % min(len(m), 4)))
       h.append('parse:len=%d' % min(len(case['s']), 12))
@@ -971,12 +1196,30 @@ class C10(Prop):
     return h
 
   def shrink_candidates(self, case):
+    """Smaller variants; a case whose keys are all well-formed is only shrunk to such cases, so that the
+    replay stays inside the property's quantifier."""
+    if case['op'] in ('rt', 'routes') and all(wf_key(k) for k in unwpath(case['keys'])):
+      for c in self._shrink_candidates(case):
+        if all(wf_key(k) for k in unwpath(c['keys'])):
+          yield c
+    else:
+      yield from self._shrink_candidates(case)
+
+  def _shrink_candidates(self, case):
     op = case['op']
-    if op == 'rt':
+    if op in ('rt', 'routes'):
       ks = case['keys']
+      if op == 'routes':
+        for f, z in (('prefix', []), ('other', []), ('split', 0)):
+          if case[f] != z:
+            c = dict(case)
+            c[f] = z
+            yield c
       for i in range(len(ks)):
         c = dict(case)
         c['keys'] = ks[:i] + ks[i + 1:]
+        if op == 'routes':
+          c['split'] = min(c['split'], len(c['keys']))
         yield c
       for i, k in enumerate(ks):
         if isinstance(k, list) and len(k) > 1:
